@@ -167,7 +167,7 @@ def adjudicate(cases, V, what):
         part = cases[off:off + CH]
         payload = json.dumps([dict({k: c[k] for k in ('p', 'e', 'c', 'r', 'pl', 'ln')}, np=c.get('np', 1))
                               for c in part])
-        res = tlc.run('ObsBatch', OBS_CFG, files={'cases.json': payload, 'chains.json': '[]'},
+        res = tlc.run('ObsBatch', OBS_CFG, files={'cases.json': payload, 'chains.json': '[]', 'lists.json': '[]', 'forms.json': '[]'},
                       workers=8)
         total_states += res.distinct
         total_gen += res.generated
@@ -259,7 +259,7 @@ def lists_stage(V, tier, rng):
         todo.append(r)
     payload = json.dumps([{'p': r['p'], 'w': r['w'], 'nb': r['nb'], 'pb': r['pb']} for r in todo])
     one = json.dumps([{'p': [0, 0, 0, 1, 0, 0], 'e': 1, 'c': 0, 'r': [], 'pl': 0, 'ln': 0, 'np': 1}])
-    r3 = tlc.run('ObsBatch', LISTS_CFG, files={'cases.json': one, 'chains.json': '[]', 'lists.json': payload}, workers=1)
+    r3 = tlc.run('ObsBatch', LISTS_CFG, files={'cases.json': one, 'chains.json': '[]', 'lists.json': payload, 'forms.json': '[]'}, workers=1)
     oks = {v['lid'] - 1: v for v in r3.prints if 'lid' in v}
     if len(oks) != len(todo):
         raise tlc.TLCFailure('list verdicts: %d for %d' % (len(oks), len(todo)))
@@ -274,6 +274,69 @@ def lists_stage(V, tier, rng):
             V.count('drift')
         else:
             V.count('lists_validated')
+    return res.distinct + r3.distinct, res.generated + r3.generated, len(ex), len(todo)
+
+
+FORMS_CFG = CHAIN_CFG.replace('ChainVerdicts', 'FormVerdicts')
+
+
+def replay_forms(item):
+    i, exp = item
+    par, w, pf, nf = exp
+    obs = batch_obs.observe_forms(par, as_str=(i % 2 == 1), seqkind=('tuple' if i % 5 == 3 else 'list'))
+    obs['ok'] = int('err' not in obs and obs['w'] == w and obs['pf'] == pf and obs['nf'] == nf and obs['sizes_ok'])
+    obs['model'] = [w, pf, nf]
+    return obs
+
+
+def forms_stage(V, tier, rng):
+    """<dtml-in ... previous> / <dtml-in ... next>: the machine's announcements (InvPrevForm, InvNextForm, InvFormsAgree checked
+    by TLC) are replayed into the real tag forms; recorded announcements, also for random larger parameters with starts
+    beyond the sequence, are validated by TLC (F_Prev, F_Next)"""
+    ex = []
+    res = tlc.run('MC_C11F', mc_cfg('none', ['InvPrevForm', 'InvNextForm', 'InvFormsAgree', 'ExportForms'], props=False),
+                  files={'MC_C11F.tla': mc_module('MC_C11F', dict(BOUNDS[tier]))}, on_print=ex.append, keep_prints=False, timeout=3000)
+    if res.violated:
+        raise tlc.TLCFailure('DTBatch violates %s (tag forms)' % res.violated)
+    recs = common.pool_map(replay_forms, list(enumerate(ex)), chunk=1500, per_case=30)
+    extra = []
+    for _ in range(1500 if tier == 'quick' else 15000):
+        L = rng.randint(1, 120)
+        size = rng.randint(1, 15)
+        extra.append((0, [[L, rng.choice([rng.randint(-1, L), rng.randint(L, 3 * L + 5)]), rng.choice([0, 0, rng.randint(1, L + 9)]), size,
+                           rng.randint(0, 6), rng.randint(0, size + 1)], None, None, None]))
+    recs += common.pool_map(replay_forms, extra, chunk=500, per_case=30)
+    todo = []
+    for r in recs:
+        if '_timeout' in r or '_crash' in r:
+            V.violation({'kind': 'no-result', 'detail': repr(r)[:600]})
+            continue
+        if 'err' in r:
+            if r.get('model', [None])[0] is None and r['err'].startswith('IndexError'):
+                continue          # random parameters of the class F11 used to fail on are not the subject here
+            V.violation({'kind': 'forms', 'clauses': ['renders'], 'par': r['p'], 'error': r['err'], 'cls': 'forms-error'})
+            continue
+        if r['ok']:
+            V.count('forms_p1_conform')
+        if not r['sizes_ok']:
+            V.violation({'kind': 'forms', 'clauses': ['size'], 'par': r['p'], 'observed': r, 'cls': 'forms-size'})
+        todo.append(r)
+    payload = json.dumps([{'p': r['p'], 'w': r['w'], 'pf': r['pf'], 'nf': r['nf']} for r in todo])
+    one = json.dumps([{'p': [0, 0, 0, 1, 0, 0], 'e': 1, 'c': 0, 'r': [], 'pl': 0, 'ln': 0, 'np': 1}])
+    r3 = tlc.run('ObsBatch', FORMS_CFG, files={'cases.json': one, 'chains.json': '[]', 'lists.json': '[]', 'forms.json': payload}, workers=1)
+    oks = {v['fid'] - 1: v for v in r3.prints if 'fid' in v}
+    if len(oks) != len(todo):
+        raise tlc.TLCFailure('form verdicts: %d for %d' % (len(oks), len(todo)))
+    for i, r in enumerate(todo):
+        bad = [k for k in ('prev', 'next') if not oks[i][k]]
+        if bad:
+            V.violation({'kind': 'forms', 'clauses': bad, 'par': dict(zip(('L', 'start', 'end', 'size', 'orphan', 'overlap'), r['p'])),
+                         'window': r['w'], 'previous_form': r['pf'], 'next_form': r['nf'], 'model': r.get('model'),
+                         'cls': 'forms-' + '-'.join(bad)})
+        elif not r['ok'] and r['model'][0] is not None:
+            V.count('drift')
+        else:
+            V.count('forms_validated')
     return res.distinct + r3.distinct, res.generated + r3.generated, len(ex), len(todo)
 
 
@@ -373,7 +436,7 @@ def main(tier):
     # every recorded chain is validated by TLC against T_Tiles / T_Back
     payload = json.dumps([{'p': r['p'], 'dir': r['dir'], 'ch': r['ch'], 'done': r['done']} for r in recorded])
     one = json.dumps([{'p': [0, 0, 0, 1, 0, 0], 'e': 1, 'c': 0, 'r': [], 'pl': 0, 'ln': 0, 'np': 1}])
-    r3 = tlc.run('ObsBatch', CHAIN_CFG, files={'cases.json': one, 'chains.json': payload}, workers=1)
+    r3 = tlc.run('ObsBatch', CHAIN_CFG, files={'cases.json': one, 'chains.json': payload, 'lists.json': '[]', 'forms.json': '[]'}, workers=1)
     oks = {}
     for v in r3.prints:
         if 'cid' in v:
@@ -395,14 +458,18 @@ def main(tier):
     states += ls
     trans += lg
     validated += lval
+    fs_, fg_, fexp, fval = forms_stage(V, tier, rng)
+    states += fs_
+    trans += fg_
+    validated += fval
     lem = lemmas()
     cov = {'states': states, 'transitions': trans, 'unbounded_window_lemmas_apalache': lem,
            'traces_validated_against_impl': V.counters.get('p1_conform', 0) + validated,
-           'behaviours_exported': len(exported), 'chains_exported': len(chains), 'batch_lists_exported': lexp,
+           'behaviours_exported': len(exported), 'chains_exported': len(chains), 'batch_lists_exported': lexp, 'tag_forms_exported': fexp,
            'exhaustive': True, 'bounds': {'window': b, 'navigation': nb},
            'samples': [exported[0], exported[len(exported) // 2], chains[len(chains) // 2][1]] if exported and chains else ['none'],
            'clauses': ['Renders', 'InRange', 'Ends', 'Explicit', 'NextIff', 'PrevIff', 'NextStart',
-                       'PrevEnd', 'Flags', 'Tiles', 'Back', 'NextBatches', 'PreviousBatches']}
+                       'PrevEnd', 'Flags', 'Tiles', 'Back', 'NextBatches', 'PreviousBatches', 'PreviousForm', 'NextForm']}
     return V.finish(cov, assumptions=[
         'parameters are ints or numeric strings; sequences are lists/tuples of ints; some renderings carry reverse / reverse_expr / an empty sort_expr (the window arithmetic is the same)',
         'announced neighbours are specified modulo clamping into 1..L (DESIGN C11)'])
